@@ -22,7 +22,29 @@ CLAIMED = {
    note="Timeout classes -1s, 0, 1ms, 50ms, 2s, 1h, MaxInt64; time is virtual, so boundary cases are exact. The concurrent ticker variant lives in C11's engine."),
 }
 
-PENDING = {k: "claimed in DESIGN.md; check still under construction in this commit" for k in ["C08","C11","C15","C16","C17","C18"]}
+
+CLAIMED.update({
+ "C11": dict(engine="reasm-conc", design="§4 C11", technique="deterministic simulation: seeded scheduler releasing one task at a time at yield hooks inside PushMessage/Maintain/Close and inside callbacks, re-entrant callbacks, deadlock detector, race detector with the scheduler's hand-offs hidden",
+   text="2-4 tasks with short Push/Maintain/Close programs (plus a Maintain ticker and callbacks that re-enter the Reassembler) are interleaved by a seeded tape at the Reassembler's internal step boundaries; oracle: no race-detector report with a library frame, no deadlock, at-most-once delivery, exactly-once for every push that returned before the winning Close was invoked, exactly one Close returns nil.",
+   note="Interleavings at yield-hook granularity (verif build tag); finer races rely on TSan, which sees every memory access but none of the scheduler's own synchronisation. Deadlocked runs abandon the worker process and are minimised with child processes."),
+ "C08": dict(engine="client", design="§4 C08", technique="deterministic simulation: real AuditClient against SimKernel (independent reference model) with injected errnos, unsolicited seq-0 records at every position, EINTR/EAGAIN runs up to 9, delayed and stale replies; per-request ledger oracle",
+   text="Every command method is judged against the ledger entry of the request it sent: nil iff the kernel's verdict was 0, otherwise the error identifies the errno (errors.As, strerror text, or AddRule's documented 'rule exists'); GetStatus/GetRules/DeleteRules data equal what the kernel sent. Under the stale-reply fault only 'never report success wrongly' is judged. Found the DeleteRule defect (fixed).",
+   note="Kernel always sends the ACK before data. Receive failures are scripted <= 9 in a row (the property's quantifier); reply delays <= 450 ms of virtual time (the 10th poll)."),
+ "C16": dict(engine="client", design="§4 C16", technique="deterministic simulation: SimKernel decodes every AUDIT_SET/AUDIT_GET datagram at fixed UAPI offsets with its own constants; reply-size (kernel version), truncation and padding faults; FromWireFormat on poisoned buffers",
+   text="Each setter must put exactly one 44-byte AUDIT_SET with flags 0x5, the single UAPI mask bit and value on the wire (failure modes by exported name must arrive as 0/1/2); GetStatus must return the words the kernel laid out for every reply size >= 32, reject shorter ones with io.ErrUnexpectedEOF and never show bytes from outside the datagram. Two open known findings (LogOnFailure/PanicOnFailure are 0).",
+   note="No schedule in this property; the simulator contributes the independent peer and the reply-size/truncation fault space. AuditStatusLost, AuditGet, AuditSet are compared statically (no setter exercises them)."),
+ "C17": dict(engine="client", design="§4 C17", technique="deterministic simulation: NoWait/WaitForReply histories against SimKernel's ACK ledger, repeated and concurrent Close under the seeded scheduler (socket calls are scheduling points), shared poisoned receive buffer",
+   text="ACK ledger: every NoWait request's ACK is consumed exactly once, in send order, only by WaitForPendingACKs, which stops at the first kernel error and never polls for ACKs that are not outstanding; the socket is closed exactly once over all sequential and concurrent Close calls, with one AUDIT_SET{PID=0} iff SetPID was used; slices returned by GetRules still equal the kernel's copy at the end of the run. Found the re-wait defect (fixed).",
+   note="Waiting calls are only issued when no NoWait ACK is outstanding (documented usage); concurrent phase runs Close only (the client promises nothing else concurrently)."),
+ "C18": dict(engine="client", design="§4 C18", technique="deterministic simulation: real NetlinkClient over the verif socket seam, 1-4 sender tasks interleaved at sendto, porcupine linearizability of the sequence counter, datagrams of every length/sender injected into Receive",
+   text="Wire bytes of every Send are decoded independently (length, type, flags, port id, sequence == returned value, payload, destination); the Send history of concurrent tasks is checked with porcupine against a counter model and by the race detector; Receive must return kernel datagrams unchanged and reject short, foreign-port and non-netlink ones without data; the audit parser is checked through AuditClient.Receive on both transports.",
+   note="Socket creation/bind/port-id discovery and a real kernel are stubs. Payload 0..8970, datagrams 0..64 bytes plus random longer ones."),
+ "C15": dict(engine="coalesce-pool", design="§4 C15", technique="deterministic simulation: pool of message groups and previously returned events, 1-3 tasks issuing Coalesce/ResolveIDs/clock-advance operations under the seeded scheduler, pristine-twin and snapshot oracles, race detector",
+   text="After every operation each input message must report the same Data/Tags/ToMapStr as a pristine parse of the same line, each coalesce must equal the event obtained in isolation, every earlier event must equal its snapshot, ID resolution must give the isolated outcome whatever the cache state or virtual time, nothing may panic, and tasks working on different groups must not race. Found the cached-map mutation defect (fixed).",
+   note="Tasks own disjoint groups/events. os/user answers come from the sandbox's static passwd/group files. Map iteration order inside the library is not controllable (warnings compared as sorted multisets)."),
+})
+
+PENDING = {}
 
 NOT_APPLICABLE = {
  "C04": "pure function of the input line (ParseLogLine/Parse/ToMapStr); no schedule, clock, fault or shared state for a simulator to own - needs input enumeration/fuzzing, a different technique",
